@@ -25,6 +25,8 @@ func Run(o *drv.Out) {
 	CorpusPacemakerPush(o)
 	CorpusStaleBlockHash(o, false)
 	CorpusStaleBlockHash(o, true)
+	CorpusLockedAtRootBoundary(o, 10)
+	CorpusLockedAtRootBoundary(o, 9)
 	nCases := 80
 	if o.Tier == "thorough" {
 		nCases = 500
@@ -135,7 +137,10 @@ func timedCase(o c01.Sink, rng *rand.Rand, tier string, k int) caseStats {
 		style = "silent"
 		planA = (byz[0] + 1 + rng.Intn(3)) % 4
 	}
-	cfg := bftsim.Config{N: n, Powers: powers, Byz: byz, Root0: 10, Salt: rng.Uint64() % 1_000_000, RealTimeouts: true}
+	// CommitteeData.LastRootHeightUpdated: the root height itself (a nested chain whose root chain has not advanced since
+	// its last commit), just below it, or zero — all legal
+	lrhu := []uint64{10, 10, 9, 0}[rng.Intn(4)]
+	cfg := bftsim.Config{N: n, Powers: powers, Byz: byz, Root0: 10, Salt: rng.Uint64() % 1_000_000, RealTimeouts: true, LastRootHeightUpdated: lrhu}
 	r := c01.NewRun(o, fmt.Sprintf("timed/%d/%s/n%d/byz%v", k, style, n, byz), cfg)
 	s := r.Sim()
 	t := &timed{r: r, s: s, o: o, rng: rng, style: style, delta: int64(20 + rng.Intn(200)),
@@ -143,6 +148,7 @@ func timedCase(o c01.Sink, rng *rand.Rand, tier string, k int) caseStats {
 		named: map[bftsim.VR]map[int]int{}, judged: map[bftsim.VR]bool{}, proposal: map[bftsim.VR]string{}, lastOff: map[bftsim.VR]int64{},
 		firstGood: -1, commitRound: -1, byzOldPropose: map[int]*bft.Message{}, sentAttack: map[string]bool{}}
 	o.Count("style:" + style)
+	o.Count(fmt.Sprintf("lrhu:%d", lrhu))
 	o.Count(fmt.Sprintf("n:%d", n))
 	// the adversarial prefix: replicas start at different times, the network loses, delays and partitions
 	t.gst = int64(15000 + rng.Intn(250000))
